@@ -10,6 +10,7 @@ them with the reported floats (agree) and evaluates the verified checker of the 
 reported values with the bin members taken from the DATA (ok).
 """
 import math
+import os
 import warnings
 
 from .. import core
@@ -22,6 +23,9 @@ PRE = ("From Coq Require Import PrimFloat QArith.\nFrom EsVerif.Common Require I
        "Open Scope Z_scope.\n")
 
 MAXBIN = 400
+# once fixes/C14/0003 is in /repo its witness is moved into the corpus; from then on float32 scalar options are also
+# generated next to plain python numbers
+F32_WEAK_MIX = os.path.exists(os.path.join(core.VERIF, "corpus", "C14", "fixed-float32-scalar-limits.json"))
 
 
 # ----------------------------------------------------------------------------- values
@@ -308,8 +312,21 @@ def _mk(r, fam, x, y, w, mode, spec, lo, hi, rev=None, mergelast=True, api=None,
         c["kw"] = {"rev_omit": (not rev) and r.random() < 0.5, "mergelast_omit": mergelast and r.random() < 0.5,
                    "none_explicit": r.random() < 0.4, "calc_stats_explicit": r.random() < 0.3}
         if x and r.random() < 0.25:
-            c["twice"] = r.choice([{"nbin": 2}, {"binsize": 1.0}, {"nperbin": 2, "mergelast": False},
-                                   {"nbin": 3, "min": _num(c["x"][0])}, {"nperbin": 1}, {"binsize": 0.5, "max": _num(c["x"][-1])}])
+            # (never a bin SIZE here: on data spanning 1e8 a size of 1 would ask for 1e8 bins)
+            c["twice"] = r.choice([{"nbin": 2}, {"nbin": 5, "min": _num(c["x"][0])}, {"nperbin": 2, "mergelast": False},
+                                   {"nperbin": 1}, {"nbin": 3, "max": _num(c["x"][-1])}, {"nbin": 1, "rev": True}])
+        # numpy 2 promotion: a float32 SCALAR combined only with python numbers makes the arithmetic single precision
+        # (dmax - dmin, (dmax - dmin)/binsize); see docs/reports/C14.md "float32 scalar options".  Such combinations are
+        # not generated until fixes/C14/0003 is in /repo; float32 scalars next to float64 operands are.
+        nfm = c["numforms"]
+        strong = ("np.float64", "0d", "np.int64") if not F32_WEAK_MIX else ("np.float64", "0d", "np.int64", "py", None)
+        if nfm["min"] == "np.float32" and not (hi is None or nfm["max"] in strong):
+            nfm["min"] = "np.float64"
+        if nfm["max"] == "np.float32" and not (lo is None or nfm["min"] in strong):
+            nfm["max"] = "np.float64"
+        if nfm["spec"] == "np.float32" and lo is not None and hi is not None \
+                and nfm["min"] not in strong and nfm["max"] not in strong:
+            nfm["spec"] = "np.float64"
     return c
 
 
@@ -340,6 +357,13 @@ def _adversarial_binned(r):
         for lo, hi in [(xs[0], xs[-1]), (xs[len(xs) // 2], None), (None, xs[len(xs) // 2]), (xs[0] - 1, xs[-1] + 1)]:
             cs.append(_mk(r, "adv:%s+limits" % fam, x, y, w, "nbin", r.choice([1, 2, 4]), lo, hi))
             cs.append(_mk(r, "adv:%s+limits" % fam, x, y, w, "binsize", r.choice([1, 0.5, 0.25]), lo, hi))
+    # more bins than any plausible internal block (255 / 256 / 257 / 300 / 399), few data
+    for nb in (255, 256, 257, 300, 399):
+        n = r.choice([20, 64])
+        x = [r.randrange(0, 4000) for _ in range(n)]
+        cs.append(_mk(r, "adv:manybins", x, [r.randrange(-9, 10) for _ in x] if nb % 2 else None,
+                      [r.choice([1, 2, 3]) for _ in x] if nb % 3 else None, "nbin", nb, None, None, rev=True))
+        cs.append(_mk(r, "adv:manybins", x, None, None, "binsize", (max(x) - min(x)) / (nb - 1), None, None, rev=True))
     # no reverse indices: only edges are reported
     cs.append(_mk(r, "adv:norev", [0, 1, 2, 3, 4, 7], None, None, "binsize", 2, None, None, rev=False, api="binner"))
     cs.append(_mk(r, "adv:norev", [0, 1, 2, 3, 4, 7], None, None, "nbin", 3, -1, 9, rev=False, api="binner2"))
@@ -795,8 +819,10 @@ class Combo(Entry):
             c = _mk(r, "combo:" + pattern, x, y, w, "combo", 0, lo, hi, mergelast=r.random() < 0.5, api=api)
             c["opts"] = opts
             c.pop("twice", None)
-            xs = [float(v) for v in x]
-            if opts["binsize"] is not None and (max(xs) - min(xs)) / _f(opts["binsize"]) > MAXBIN:
+            # keep the number of bins small whichever bin size ends up in force (histogram's default is 1.0)
+            xs = [float(v) for v in x] + [float(v) for v in (lo, hi) if v is not None]
+            eff = _f(opts["binsize"]) if opts["binsize"] is not None else 1.0
+            if opts["nperbin"] is None and (max(xs) - min(xs)) / eff > MAXBIN:
                 continue
             cs.append(c)
         return cs
@@ -982,7 +1008,7 @@ def huge_checks(ctx, replay):
         ctx.case(["huge", c], c["mode"] != "nbin" or c["nbin"] > 1, "huge:%s:%s" % (c["mode"], c["dtype"]))
         ctx.count("verdict:huge:%d" % (2 if bad else 0))
         if bad:
-            ctx.violation("huge: per-bin quantities of a long array differ from the direct computation (%s)" % "; ".join(bad[:3]),
+            ctx.violation("huge: per-bin quantities of a long array differ from the direct computation",
                           {"kind": "failing-input", "entry": "huge", "case": c, "discrepancies": bad[:10]}, found_input=True)
 
 TRUSTED = [
